@@ -106,10 +106,12 @@ func runC15(tb ev.TB, p c15Prog) ev.Result {
 		opts.LT = []cid.Cid{mustCid(h)}
 		start = append(start, w.Reg.Get(h).Next...)
 	case "lte-unknown":
+		// one of the bounds (at a generated position: first, middle or last) is not in the log
+		pos := p.LowerIx % len(p.UpperIx)
 		for i, ix := range p.UpperIx {
-			if i == len(p.UpperIx)-1 || len(all) == 0 {
+			if i == pos || len(all) == 0 {
 				opts.LTE = append(opts.LTE, unknownCid(ix))
-				break
+				continue
 			}
 			opts.LTE = append(opts.LTE, mustCid(all[ix%len(all)]))
 		}
